@@ -177,7 +177,7 @@ GEN = {"kernel": ("theories/Gen/GenEquiv.vo", "kernel of /repo (gene_datum.py, o
        "cf_worker_run": ("theories/Props/C20code.vo", "control flow of /repo's WorkerProcess.run (+ _send_result) as an interaction program: equal to Model/Worker.v on every script (Proofs/WorkerProgP.v)"),
        "cf_handle_chrome": ("theories/Props/C11code.vo", "control flow of /repo's _ProgressBars.handle_chrome (+ _pop, _collect) as an interaction program: in lockstep with Model/Collector.v under every schedule (Proofs/CollectorProgP.v)")}
 # further property files (theorems about the translated code) whose theorems and Print Assumptions are checked with the property's own
-EXTRA_PROPS = {"C01": ["C01code.v", "C01merge.v"], "C04": ["C01code.v"], "C07": ["C01code.v", "C01merge.v"], "C08": ["C01code.v", "C01merge.v"], "C20": ["C20code.v"], "C11": ["C11code.v"], "C02": ["C02code.v"], "C03": ["C03float.v"], "C13": ["C13code.v"], "C18": ["C18code.v"], "C15": ["C15code.v"], "C09": ["C15code.v"], "C12": ["C12code.v"], "C17": ["C12code.v"], "C19": ["C19code.v"],
+EXTRA_PROPS = {"C01": ["C01code.v", "C01merge.v", "C01e2e.v"], "C04": ["C01code.v"], "C07": ["C01code.v", "C01merge.v"], "C08": ["C01code.v", "C01merge.v"], "C20": ["C20code.v"], "C11": ["C11code.v"], "C02": ["C02code.v"], "C03": ["C03float.v"], "C13": ["C13code.v"], "C18": ["C18code.v"], "C15": ["C15code.v"], "C09": ["C15code.v"], "C12": ["C12code.v"], "C17": ["C12code.v"], "C19": ["C19code.v"],
                "C05": ["C18code.v"]}
 # axioms of Coq's standard library that the theorems of a property file may depend on (everything else: none)
 STDLIB_REALS = {"ClassicalDedekindReals.sig_forall_dec", "ClassicalDedekindReals.sig_not_dec",
